@@ -258,7 +258,7 @@ func decodeLikeAPlugin(body []byte) {
 
 func c05API(t *testing.T, seed uint64) rt.Result {
 	ops := 0
-	out := hz.Run(t, hz.Opts{Seed: seed, HookMode: hz.HookYield, NoServe: true, Limit: time.Hour, ExtraListeners: int(seed % 3)}, func(w *hz.World) {
+	out := hz.Run(t, hz.Opts{Seed: seed, HookMode: hz.HookYield, NoServe: true, Limit: time.Hour, ExtraListeners: int(mix(seed) % 3)}, func(w *hz.World) {
 		r := rand.New(rand.NewPCG(seed, 6))
 		srv := w.Srv
 		var wg sync.WaitGroup
